@@ -465,7 +465,8 @@ def _observe(w, size, focus, enc, clear=True, on_render=None):
 
     mode = ("fixed", "flow", "box")[len(size)]
     e = {"t": "render", "mode": mode, "c": size[0] if size else 0, "r": size[1] if len(size) == 2 else 0, "focus": 1 if focus else 0,
-         "rows_call": -1, "pc": -1, "pr": -1, "calc_exc": "", "exc": "", "cc": -1, "cr": -1, "content": [], "cur": [], "curkind": "none"}
+         "rows_call": -1, "pc": -1, "pr": -1, "calc_exc": "", "exc": "", "cc": -1, "cr": -1, "content": [], "cur": [], "curkind": "none",
+         "calc_again": [], "exc_at": "", "shards": 0, "span": 0, "cutspan": 0}
     if clear:
         urwid.CanvasCache.clear()
     try:
@@ -483,16 +484,53 @@ def _observe(w, size, focus, enc, clear=True, on_render=None):
     canv = None
     try:
         canv = w.render(size, focus)
+        e["exc_at"] = "content"
         _measure(canv, enc, e)
+        e["exc_at"] = ""
     except Exception as ex:  # noqa: BLE001
         e["exc"] = type(ex).__name__
         e["exc_msg"] = str(ex)[:200]
+        e["exc_at"] = e["exc_at"] or "render"      # "content": render() returned a canvas whose content() cannot be read
         canv = None
+    if canv is not None and mode != "box":
+        # the widget's own calculation asked AGAIN: right after the rendering (it may be answered from the canvas just cached) and,
+        # outside histories, once more after _invalidate() (computed anew, by a widget that has rendered at this size)
+        for when in ("after", "inval") if clear else ("after",):
+            try:
+                if when == "inval":
+                    w._invalidate()
+                if mode == "flow":
+                    e["calc_again"].append([when, e["c"], int(w.rows(size, focus))])
+                else:
+                    p = w.pack(size, focus)
+                    e["calc_again"].append([when, int(p[0]), int(p[1])])
+            except Exception:  # noqa: BLE001
+                e["calc_again"].append([when, -1, -1])
     return e, canv
+
+
+def _shard_facts(canv, e):
+    """Coverage only (never judged): the shard structure of a composite canvas - how many shards, whether a cell view spans
+    several of them, whether such a view was cut at its bottom although more canvas follows below it."""
+    shards = getattr(canv, "shards", None) or []
+    e["shards"] = len(shards)
+    total, top = sum(n for n, _cvs in shards), 0
+    for n, cvs in shards:
+        for cv in cvs:
+            if cv[3] > n:
+                e["span"] = 1
+                if cv[1] + cv[3] < cv[5].rows() and top + cv[3] < total:
+                    e["cutspan"] = 1
+        top += n
 
 
 def _measure(canv, enc, e):
     e["cc"], e["cr"] = int(canv.cols()), int(canv.rows())
+    if "shards" in e:
+        try:
+            _shard_facts(canv, e)
+        except Exception:  # noqa: BLE001
+            pass
     e["content"] = [row_widths(row, enc) for row in canv.content()]
     cur = canv.cursor
     if cur is not None:
@@ -526,6 +564,7 @@ def observe_frames(t, w, size, focus, enc, max_sub, seed):
     holds the last frame) while
       root   the root is rendered at (size, focus);
       sub    every widget of the tree the root rendered is rendered directly at each (size, focus) its parent gave it;
+      layout (recorded during root, placed before it) the widths every Columns of the tree gave its children in the root's rendering;
       again  the root is rendered again;
       inval  the root is invalidated and rendered again (children come from the cache);
       held   every held canvas is measured again (event index of the rendering that returned it).
@@ -539,6 +578,8 @@ def observe_frames(t, w, size, focus, enc, max_sub, seed):
     nodes = list(walk_paths(t, w))
     given = {}
 
+    calls, active = [], [0]        # (index of the calling node, index of the node rendered, size, columns of the canvas returned)
+
     def spy(idx, sw):
         orig = sw.render
 
@@ -547,9 +588,39 @@ def observe_frames(t, w, size, focus, enc, max_sub, seed):
             g = (tuple(sz), bool(focus))
             if g not in given[idx]:
                 given[idx].append(g)
-            return orig(sz, focus)
+            parent = active[-1]
+            active.append(idx)
+            cols = -1
+            try:
+                canv = orig(sz, focus)
+                cols = int(canv.cols())
+            finally:
+                active.pop()
+                calls.append((parent, idx, tuple(sz), int(sz[0]) if sz else cols))       # the columns asked for; of a fixed widget: those of its canvas
+            return canv
 
         sw.render = render
+
+    def layouts():
+        """What every Columns of the tree, rendered exactly once in the root's rendering at a size that names its columns,
+        gave its children (the columns of each child's canvas; 0 = not rendered)."""
+        index = {tuple(p): i for i, (p, _st, _sw) in enumerate(nodes)}
+        out = []
+        for idx, (path, st, _sw) in enumerate(nodes):
+            if st["k"] != "Columns" or not st["c"]:
+                continue
+            mine = [c for c in calls if c[1] == idx] if idx else [(0, 0, tuple(size), 0)]
+            if len(mine) != 1 or not mine[0][2]:
+                continue
+            widths = []
+            for i in range(1, len(st["c"]) + 1):
+                kid = [c for c in calls if c[0] == idx and c[1] == index[(*path, i)]]
+                if len(kid) > 1:
+                    break
+                widths.append(max(kid[0][3], 0) if kid else 0)
+            else:
+                out.append({"t": "layout", "path": list(path), "c": int(mine[0][2][0]), "w": widths})
+        return out
 
     def frame(op, path, sw, sz, fc, on_render=None):
         h0 = urwid.CanvasCache.hits
@@ -574,6 +645,9 @@ def observe_frames(t, w, size, focus, enc, max_sub, seed):
     frame("root", [], w, size, focus, on_render=start)
     for _p, _st, sw in nodes:
         sw.__dict__.pop("render", None)
+    ev[0:0] = layouts()        # the cause before its consequence: what the containers asked of their children, then what the root returned
+    for i, (_ref, canv) in enumerate(held):
+        held[i] = (len(ev), canv)
     subs = [(idx, g) for idx in sorted(given) for g in given[idx]]
     if len(subs) > max_sub:
         subs = sorted(rng.sample(subs, max_sub))
